@@ -1,6 +1,42 @@
-(* Props/Properties_C06.v - statements only; see DESIGN.md section 8 C06. *)
-From Adm Require Import Heap.Exec gen.PlansGen Heap.PlanChecks.
+(* Props/Properties_C06.v - C06: object, complementary-object and pack-format graphs stay acyclic.
+   Statements only.  [run P ops empty_state] is the state after any finite sequence of API calls
+   (create, add, remove, every reference edit, set(Id), getSilent, lookup), executed to the end
+   whether or not individual calls throw; P are the plans regenerated from src/document.cpp. *)
+From Adm Require Import Heap.Exec gen.PlansGen Heap.PlanChecks Heap.Frame Heap.Acyclic.
 
 Theorem C06_plans_recognised : plans_problems = [] /\ add_plan_complete gen_plans = true /\ plans_typed gen_plans = true.
 Proof. exact (conj plans_recognised (conj gen_add_plan_complete gen_plans_typed)). Qed.
 Print Assumptions C06_plans_recognised.
+
+(* every reachable state, for every plan table, every history length, every number of elements *)
+Theorem C06_invariant : forall P rk ops, guarded rk = true -> acyclic (run P ops empty_state) rk.
+Proof. exact acyclic_invariant. Qed.
+Print Assumptions C06_invariant.
+
+(* one step, from any acyclic state (not only reachable ones) *)
+Theorem C06_step : forall P rk o s, guarded rk = true -> acyclic s rk -> acyclic (fst (exec P o s)) rk.
+Proof. exact exec_acyclic. Qed.
+Print Assumptions C06_step.
+
+(* the call that would close a cycle (self-reference included) fails and returns the very same state *)
+Theorem C06_cycle_rejected_unchanged : forall P rk a b s s' r, guarded rk = true -> reach s rk b a ->
+  add_ref P rk a b s = (s', r) -> s' = s /\ exists e, r = inr e.
+Proof. exact would_close_cycle_rejected. Qed.
+Print Assumptions C06_cycle_rejected_unchanged.
+
+(* on acyclic states the guard never runs out of fuel: it terminates with an answer *)
+Theorem C06_guard_terminates : forall s rk, acyclic s rk -> forall a b, reaches (fuel_of s) s rk b a <> None.
+Proof. exact guard_terminates. Qed.
+Print Assumptions C06_guard_terminates.
+
+Theorem C06_cycle_exception_exact : forall P rk a b s, guarded rk = true -> acyclic s rk -> reach s rk b a ->
+  kindof s a = Some (src_kind rk) -> kindof s b = Some (dst_kind rk) ->
+  add_ref P rk a b s = (s, inr Cycle).
+Proof. exact cycle_exception_exact. Qed.
+Print Assumptions C06_cycle_exception_exact.
+
+(* the "false" answer of the guard is sound for every fuel and every state *)
+Theorem C06_guard_sound : forall fuel s rk from target,
+  reaches fuel s rk from target = Some false -> ~ reach s rk from target.
+Proof. exact reaches_false_sound. Qed.
+Print Assumptions C06_guard_sound.
